@@ -812,6 +812,35 @@ impl C29 {
                         out.bump("probe.block-ends-at-fe00");
                     }
                 }
+                3 => {
+                    // load the result of linking two of the files (an object shape no single assembly produces)
+                    let (a, b) = ((*arg as usize) % files.len(), (*arg as usize / 7) % files.len());
+                    if a == b {
+                        continue;
+                    }
+                    let Ok(r) = tgen::ref_link(&[&files[a].obj, &files[b].obj]) else { continue };
+                    let Ok(Ok(linked)) = guarded(|| lc3_ensemble::asm::ObjectFile::link(objs[a].clone(), objs[b].clone())) else { continue };
+                    let before: Vec<Word> = (0..=0xFFFFu16).map(|x| sim.mem[x]).collect();
+                    match guarded(|| sim.load_obj_file(&linked)) {
+                        Ok(Ok(())) => {}
+                        Ok(Err(e)) => return fail(i, "load-error", format!("load_obj_file of link({a},{b}) failed: {e:?}")),
+                        Err(p) => return fail(i, "panic-in-load", p),
+                    }
+                    loads += 1;
+                    out.bump("probe.loaded-linked-file");
+                    for x in 0..=0xFFFFu16 {
+                        let now = sim.mem[x];
+                        let ok = match r.image.get(&x) {
+                            Some(Some(v)) => now.get() == *v && now.is_init(),
+                            Some(None) => !now.is_init(),
+                            None => now == before[x as usize],
+                        };
+                        if !ok {
+                            return fail(i, "load-linked", format!("link({a},{b}): mem[x{x:04X}] = (x{:04X}, init {}) after the load; image says {:?}, before the load (x{:04X}, init {})", now.get(), now.is_init(), r.image.get(&x), before[x as usize].get(), before[x as usize].is_init()));
+                        }
+                    }
+                    fp.add(0x300 + a as u64 * 8 + b as u64);
+                }
                 1 => {
                     sim.pc = 0x3000 + (*arg as u16 & 0xFF);
                     let _ = guarded(|| sim.run_with_limit(*arg as u64 % 40));
@@ -859,9 +888,10 @@ impl Check for C29 {
         let nf = 1 + r.below(3) as usize;
         let mut history = vec![];
         for _ in 0..1 + r.below(6) {
-            history.push(match r.below(6) {
+            history.push(match r.below(7) {
                 0..=2 => (0u8, r.below(nf as u64) as u32),
                 3 => (1u8, r.below(4000) as u32),
+                4 if nf >= 2 => (3u8, r.below(1000) as u32),
                 _ => (2u8, (r.u16() as u32) << 16 | r.u16() as u32),
             });
         }
